@@ -64,7 +64,15 @@ func genPlanC17(rt *rapid.T, real bool) *Plan {
 	bursts := rapid.IntRange(1, 4).Draw(rt, "bursts")
 	tag := 1
 	total := 0
+	recon := 0
 	for b := 0; b < bursts; b++ {
+		if b > 0 && rapid.IntRange(0, 2).Draw(rt, "reconnect-between-bursts") == 0 {
+			// the gateway ends the connection while telegrams may still be parked; the reconnect succeeds
+			// and the next burst arrives on the new connection (acceptance order spans both epochs)
+			p.Gw = append(p.Gw, GwStep{AfterUs: rapid.SampledFrom([]int{0, 1, 211, 3000}).Draw(rt, "disc-after"), Kind: "discreq", Chan: "cur"})
+			recon++
+			_ = recon
+		}
 		n := rapid.IntRange(2, 64).Draw(rt, "burst-len")
 		if rapid.IntRange(0, 2).Draw(rt, "short") > 0 {
 			n = rapid.IntRange(2, 8).Draw(rt, "burst-short")
@@ -109,6 +117,9 @@ func classifyC17(p *Plan, res *Result, rec *common.Rec) bool {
 		}
 		if e.K == "read" {
 			unread--
+		}
+		if e.K == "dlv" && e.Svc == "DiscReq" && unread > 0 {
+			rec.Class("reconnect with telegrams parked")
 		}
 	}
 	kind := "tunnel"
